@@ -56,6 +56,17 @@ def upperHasLowerBad (t : List URow) : List URow :=
   t.filter fun row => row.flags / 2 % 2 == 1 && row.up != row.r &&
     (match findRow t row.up with | some U => U.lo == U.r | none => true)
 
+/-- The runes — all 128 ASCII runes and every listed row — at which the oracle built from the rows differs from Go's
+    tables on ASCII / above the Unicode range (`Spec.KeyEnc.asciiUni`): the hypothesis `AgreeOnKeys` of
+    `Props/C09CrossUni` evaluated on the harness's rows. -/
+def agreeOnKeysBad (t : List URow) : List Int :=
+  let u := mkUni t []
+  let a := KeyEnc.asciiUni
+  (((List.range 128).map fun (r : Nat) => ((r : Nat) : Int)) ++ t.map (·.r)).filter fun r => KeyEnc.inKeyDom r &&
+    !(u.isUpper r == a.isUpper r && u.isLower r == a.isLower r && u.isLetter r == a.isLetter r &&
+      u.isGraphic r == a.isGraphic r && u.isPrint r == a.isPrint r &&
+      u.toUpper r == a.toUpper r && u.toLower r == a.toLower r)
+
 def sepInts? (sep : String) (s : String) : Option (List Int) :=
   if s = "-" ∨ s = "" then some [] else (s.splitOn sep).mapM (·.toInt?)
 
@@ -236,6 +247,15 @@ def stepUni (op : List String) (impl : String) : Option String :=
                else "FAIL AsciiAgree (hypothesis of self_match) does not hold of Go's unicode tables"
       some s!"{model}\t{impl}\t{v}"
     | _, _ => none
+  | ["hypk", ut] =>
+    match parseU? ut with
+    | some t =>
+      let bad := agreeOnKeysBad t
+      let model := if bad.isEmpty then "agree" else "differ"
+      let v := if bad.isEmpty ∧ impl = "agree" then "ok"
+               else s!"FAIL AgreeOnKeys (hypothesis of cross_protocol_any_uni) does not hold of Go's unicode tables at {bad}"
+      some s!"{model}\t{impl}\t{v}"
+    | none => none
   | ["hypl", ut] =>
     match parseU? ut with
     | some t =>
